@@ -528,6 +528,98 @@ fn http_case(c: &HttpCase) -> Result<(usize, usize), String> {
     Ok((got.len(), errs))
 }
 
+/// What was done with an HttpReader before must not matter: a stream over a run of
+/// adjacent ranges is dropped after some of its items (the consumer wanted a prefix, was
+/// cancelled, hit a bad chunk), then the same reader is asked for another list. The server
+/// is correct throughout.
+fn http_history_case(seed: u64, i: usize) -> Result<(), String> {
+    let mut rng = Rng::new(seed).fork(0x0870_0000 + i as u64);
+    let flen = rng.urange(300, 3000);
+    let file = Arc::new(file_bytes(flen));
+    let pieces = match rng.below(3) {
+        0 => None,
+        1 => Some(vec![rng.urange(1, 9)]),
+        _ => Some(vec![rng.urange(1, 64), rng.urange(1, 300)]),
+    };
+    let server = Server::start(
+        file.clone(),
+        Arc::new(move |_req, _f| match &pieces {
+            None => Action::Full,
+            Some(v) => Action::Fragmented(v.clone()),
+        }),
+    );
+    let url = server.url();
+    // first list: a run of adjacent ranges
+    let n1 = rng.urange(2, 6);
+    let mut first = Vec::new();
+    let mut off = rng.urange(0, flen / 4) as u64;
+    for _ in 0..n1 {
+        let s = rng.urange(1, (flen / 8).max(2));
+        if off as usize + s > flen {
+            break;
+        }
+        first.push((off, s));
+        off += s as u64;
+    }
+    if first.len() < 2 {
+        return Ok(());
+    }
+    let take = rng.urange(1, first.len() - 1);
+    let shape = match rng.below(4) {
+        0 => RangeShape::Adjacent,
+        1 => RangeShape::Gapped,
+        2 => RangeShape::Unordered,
+        _ => RangeShape::Mixed,
+    };
+    let mut second = gen_ranges(&mut rng, flen, &shape, 6, (flen / 10).max(2));
+    if rng.chance(1, 2) {
+        // small first ranges: shorter than what an abandoned stream may have left behind
+        second[0].1 = second[0].1.min(rng.urange(1, 8));
+    }
+    let (first2, second2) = (first.clone(), second.clone());
+    let rt = crate::exec::rt_current();
+    let items = crate::util::catch(|| {
+        rt.block_on(async {
+            let mut reader = crate::lib_drv::http_reader(&url, 0)?;
+            {
+                let mut st0 = reader.read_chunks(first2.iter().map(|&(o, s)| ChunkOffset::new(o, s)).collect());
+                for _ in 0..take {
+                    let _ = tokio::time::timeout(std::time::Duration::from_secs(20), st0.next()).await;
+                }
+            }
+            let mut st = reader.read_chunks(second2.iter().map(|&(o, s)| ChunkOffset::new(o, s)).collect());
+            let mut items: Vec<Result<Vec<u8>, String>> = Vec::new();
+            let r = tokio::time::timeout(std::time::Duration::from_secs(20), async {
+                while let Some(r) = st.next().await {
+                    let stop = r.is_err();
+                    items.push(r.map(|b| b.to_vec()).map_err(|e| format!("{:?}", e)));
+                    if stop || items.len() > second2.len() + 2 {
+                        break;
+                    }
+                }
+            })
+            .await;
+            if r.is_err() {
+                return Err("read_chunks stream did not finish within 20 s".to_string());
+            }
+            Ok(items)
+        })
+    })
+    .and_then(|x| x)?;
+    drop(server);
+    if items.len() != second.len() {
+        return Err(format!("after an abandoned stream: {} items for {} requested ranges", items.len(), second.len()));
+    }
+    for (k, (it, &(o, s))) in items.iter().zip(second.iter()).enumerate() {
+        match it {
+            Ok(b) if b[..] == file[o as usize..o as usize + s] => {}
+            Ok(b) => return Err(format!("after an abandoned stream (first list {:?}, {} item(s) taken): item {} is not the bytes of range {}+{} (got {} bytes starting {:?})", first, take, k, o, s, b.len(), &b[..b.len().min(4)])),
+            Err(e) => return Err(format!("after an abandoned stream: item {} is an error although the server is correct: {}", k, e)),
+        }
+    }
+    Ok(())
+}
+
 fn http_engine(rep: &Report, seed: u64, tier: Tier) {
     let mut cases: Vec<HttpCase> = Vec::new();
     // E1: single range, cut after every offset on the first attempt (then full), budgets 0..3
@@ -758,6 +850,17 @@ pub fn run(tier: Tier, seed: u64) -> i32 {
     }
     local_engine(&rep, seed, tier);
     http_engine(&rep, seed, tier);
+    {
+        let n = tier.pick(600, 20_000);
+        let out = par_map(n, crate::util::ncpu(), |i| (i, http_history_case(seed, i)));
+        for (i, r) in out {
+            rep.eval();
+            rep.count("http.history_cases", 1);
+            if let Err(why) = r {
+                rep.violation("c08/http/history", json!({"why": why}), json!({"engine": "http-history", "seed": seed, "i": i}));
+            }
+        }
+    }
     if tier == Tier::Thorough {
         crate::miri::run_slices(&rep, "reader", 16, 80, "");
     }
@@ -780,6 +883,7 @@ pub fn replay(v: &Value) -> i32 {
     let r = &v["replay"];
     let res = match r["engine"].as_str().unwrap_or("") {
         "http" => http_case(&HttpCase::from(r)).map(|_| ()),
+        "http-history" => http_history_case(r["seed"].as_u64().unwrap_or(1), r["i"].as_u64().unwrap_or(0) as usize),
         "local" => {
             let ranges: Vec<(u64, usize)> = r["ranges"].as_array().unwrap().iter().map(|x| (x[0].as_u64().unwrap(), x[1].as_u64().unwrap() as usize)).collect();
             let comp: Vec<usize> = r["comp"].as_array().unwrap().iter().map(|x| x.as_u64().unwrap() as usize).collect();
